@@ -38,14 +38,32 @@ def tie(ctx, tier_override=None, tag="tie", extra=()):
         return None
     if not ctx.run_model(model, os.path.join(out_dir, "model_in.txt"), os.path.join(out_dir, "model_out.txt")):
         return None
-    rd = lambda f: common.read_lines(os.path.join(out_dir, f))
+    def rd(f):
+        # split on "\n" only: str.splitlines() also breaks on form feeds, U+2028 ... inside a line
+        with open(os.path.join(out_dir, f), errors="replace") as fh:
+            t = fh.read()
+        if t.endswith("\n"):
+            t = t[:-1]
+        return t.split("\n") if t else []
     mo, io, oo, cases, fams = rd("model_out.txt"), rd("impl_out.txt"), rd("oracle_out.txt"), rd("cases.txt"), rd("families.txt")
     n = len(cases)
     res = {"n": n, "model_diffs": [], "oracle_diffs": [], "fam_counts": {}, "out_dir": out_dir, "samples": []}
-    if not (len(mo) == len(io) == len(oo) == n == len(fams)):
-        ctx.log("line counts differ: model %d impl %d oracle %d cases %d" % (len(mo), len(io), len(oo), n))
-        ctx.harness_crash = "output files have different numbers of lines"
+    if len(fams) != n:
+        ctx.log("families.txt has %d lines, cases.txt %d" % (len(fams), n))
+        ctx.harness_crash = "families.txt and cases.txt have different numbers of lines"
         return None
+    # a shorter output file (a driver that died) loses only the lines after the break: say which
+    for name, lst in (("model_out.txt", mo), ("impl_out.txt", io), ("oracle_out.txt", oo)):
+        if len(lst) != n:
+            k = min(len(lst), n)
+            where = "line %d, family %s, case `%s`" % (k + 1, fams[k] if k < n else "?", cases[k][:200] if k < n else "?")
+            ctx.log("%s has %d lines for %d cases: first missing/extra at %s" % (name, len(lst), n, where))
+            ctx.obligations.append(common.Obligation("output-lines:" + name, "correspondence", False,
+                                                     "%d lines for %d cases; first missing at %s" % (len(lst), n, where)))
+            ctx.violation("obligation:output-lines:" + name, "%s has %d lines for %d cases; first missing at %s" % (name, len(lst), n, where),
+                          obligation="output-lines:" + name, no_input=True)
+            del lst[n:]
+            lst.extend(["<missing>"] * (n - len(lst)))
     for i in range(n):
         f = fams[i]
         res["fam_counts"][f] = res["fam_counts"].get(f, 0) + 1
@@ -60,7 +78,7 @@ def tie(ctx, tier_override=None, tag="tie", extra=()):
     res["property_failures"] = []
     pf = os.path.join(out_dir, "property_failures.txt")
     if os.path.exists(pf):
-        for l in common.read_lines(pf):
+        for l in open(pf, errors="replace").read().split("\n"):
             p = l.split("\t")
             if len(p) == 4:
                 res["property_failures"].append(tuple(p))
